@@ -302,7 +302,9 @@ int main(int argc, char** argv) {
         s.body = body;
         s.delay = mode == 'D';
         s.bound_quick = bq;
-        s.bound_thorough = bt;
+        // the 1- and 2-worker scenarios are also explored without a bound in explicit-state mode (X: scenarios below),
+        // so the bounded thorough tier goes one step beyond quick at most
+        s.bound_thorough = std::min(bt, bq + 1);
         s.horizon = 20000;
         scs.push_back(s);
     };
